@@ -5,6 +5,7 @@
 package spec
 
 import (
+	"encoding/json"
 	"fmt"
 	"reflect"
 	"strconv"
@@ -146,6 +147,23 @@ var namedStrType = reflect.TypeOf(NamedStr(""))
 // Catalogue lets package cat register its compile-time types without an import cycle.
 var Catalogue = map[string]reflect.Type{}
 
+// namedStructs: every named struct type seen by FromType, by package path and name.
+var namedStructs = map[string]reflect.Type{}
+
+// sameFieldList: the spec still lists exactly the type's fields (a projection that
+// removed or added fields is a new, anonymous type).
+func sameFieldList(t TypeSpec, rt reflect.Type) bool {
+	if rt.NumField() != len(t.Fields) {
+		return false
+	}
+	for i, f := range t.Fields {
+		if rt.Field(i).Name != f.Go {
+			return false
+		}
+	}
+	return true
+}
+
 // Build returns the real Go type.
 func Build(t TypeSpec) reflect.Type {
 	if t.Cat != "" {
@@ -177,6 +195,22 @@ func Build(t TypeSpec) reflect.Type {
 	case "array":
 		return reflect.ArrayOf(t.N, Build(*t.Elem))
 	case "struct":
+		for _, f := range t.Fields {
+			if f.Unexported {
+				// only a type that exists has unexported fields: the one this description was taken from
+				if rt, ok := structsByShape[shapeKey(t)]; ok {
+					return rt
+				}
+				break
+			}
+		}
+		if t.TName != "" {
+			// a named struct met while a compile-time type was described: the type itself
+			// (it may have unexported fields, which reflect.StructOf cannot make)
+			if rt, ok := namedStructs[t.TPkg+"."+t.TName]; ok && sameFieldList(t, rt) {
+				return rt
+			}
+		}
 		fs := make([]reflect.StructField, len(t.Fields))
 		for i, f := range t.Fields {
 			fs[i] = reflect.StructField{Name: f.Go, Type: Build(f.T), Tag: f.Tag()}
@@ -194,7 +228,16 @@ func FromType(rt reflect.Type, catName string) TypeSpec {
 	return ts
 }
 
-func fromType(rt reflect.Type, busy map[reflect.Type]bool) TypeSpec {
+// structsByShape: every struct type seen by FromType, by the description taken from it.
+var structsByShape = map[string]reflect.Type{}
+
+func shapeKey(t TypeSpec) string {
+	t.Cat = ""
+	b, _ := json.Marshal(t)
+	return string(b)
+}
+
+func fromType(rt reflect.Type, busy map[reflect.Type]bool) (ts TypeSpec) {
 	switch rt {
 	case timeType:
 		return T("time")
@@ -220,7 +263,11 @@ func fromType(rt reflect.Type, busy map[reflect.Type]bool) TypeSpec {
 		return Slice(fromType(rt.Elem(), busy))
 	case reflect.Map:
 		if rt.Key().Kind() == reflect.String {
-			return Map(fromType(rt.Elem(), busy))
+			m := Map(fromType(rt.Elem(), busy))
+			if rt.Key() == namedStrType {
+				m.Key = "nstr"
+			}
+			return m
 		}
 		e := fromType(rt.Elem(), busy)
 		return TypeSpec{K: "mapk", Key: rt.Key().Kind().String(), Elem: &e}
@@ -236,7 +283,11 @@ func fromType(rt reflect.Type, busy map[reflect.Type]bool) TypeSpec {
 		}
 		busy[rt] = true
 		defer delete(busy, rt)
-		ts := TypeSpec{K: "struct", TName: rt.Name(), TPkg: rt.PkgPath()}
+		if rt.Name() != "" {
+			namedStructs[rt.PkgPath()+"."+rt.Name()] = rt
+		}
+		defer func() { structsByShape[shapeKey(ts)] = rt }()
+		ts = TypeSpec{K: "struct", TName: rt.Name(), TPkg: rt.PkgPath()}
 		for i := 0; i < rt.NumField(); i++ {
 			sf := rt.Field(i)
 			fs := FieldSpec{Go: sf.Name, Unexported: !sf.IsExported(), Embedded: sf.Anonymous, BQ: sf.Tag.Get("bq")}
